@@ -35,6 +35,7 @@ CONSTANTS Ls,          \* listeners (channels), e.g. {1,2,3}
           Rids,        \* e.g. {1}
           ExtCfgs,     \* set of <<ridOn, midOn>> pairs: which header-extension ids are negotiated
           MaxLen,      \* bound on the number of actions in a behaviour
+          Extras,      \* optional action groups: subset of {"full", "ext"}
           Deviations
 
 VARIABLES bySsrc,      \* [Ssrcs -> Ls \cup {0}]
@@ -42,13 +43,15 @@ VARIABLES bySsrc,      \* [Ssrcs -> Ls \cup {0}]
           byMid,       \* [Mids  -> Ls \cup {0}]
           route,       \* [Ls -> [on : BOOLEAN, pts : SUBSET Pts, prov : BOOLEAN]]
           closed,      \* listeners whose receiving end was dropped
-          cfg,         \* [rid |-> BOOLEAN, mid |-> BOOLEAN]
+          full,        \* listeners whose channel is at capacity (the receiver is not reading)
+          cfg,         \* [rid |-> BOOLEAN, mid |-> BOOLEAN]: which extension ids are set now
+          cfg0,        \* the configuration the transport started with (never changes)
           reg,         \* ghost: listeners registered since the last clear_listeners / removal
           hist,        \* actions so far
           last         \* what the last step did (for the rules)
 
-vars == <<bySsrc, byRid, byMid, route, closed, cfg, reg, hist, last>>
-view == <<bySsrc, byRid, byMid, route, closed, cfg, reg>>
+vars == <<bySsrc, byRid, byMid, route, closed, full, cfg, cfg0, reg, hist, last>>
+view == <<bySsrc, byRid, byMid, route, closed, full, cfg, cfg0, reg>>
 
 NoRoute == [on |-> FALSE, pts |-> {}, prov |-> FALSE]
 NoLast  == [kind |-> "ctl", by |-> "", sel |-> 0, delivered |-> {}, allowed |-> {{}}, failed |-> 0,
@@ -60,7 +63,9 @@ Init ==
   /\ byMid  = [m \in Mids |-> 0]
   /\ route  = [l \in Ls |-> NoRoute]
   /\ closed = {}
+  /\ full = {}
   /\ \E c \in ExtCfgs : cfg = [rid |-> c[1], mid |-> c[2]]
+  /\ cfg0 = cfg
   /\ reg = {}
   /\ hist = <<>>
   /\ last = NoLast
@@ -90,47 +95,49 @@ TheOne(S)     == IF Cardinality(S) = 1 THEN CHOOSE l \in S : TRUE ELSE 0
 
 Ctl(a) == /\ last' = NoLast
           /\ Log(a)
+          /\ UNCHANGED cfg0
 
 RegSsrc(l, s) ==
   /\ bySsrc' = [DropClosed(bySsrc) EXCEPT ![s] = l]
   /\ reg' = reg \cup {l}
   /\ Ctl([op |-> "ssrc", l |-> l, s |-> s])
-  /\ UNCHANGED <<byRid, byMid, route, closed, cfg>>
+  /\ UNCHANGED <<byRid, byMid, route, closed, full, cfg>>
 
 RegRid(l, r) ==
   /\ byRid' = [DropClosed(byRid) EXCEPT ![r] = l]
   /\ reg' = reg \cup {l}
   /\ Ctl([op |-> "rid", l |-> l, r |-> r])
-  /\ UNCHANGED <<bySsrc, byMid, route, closed, cfg>>
+  /\ UNCHANGED <<bySsrc, byMid, route, closed, full, cfg>>
 
 RegMid(l, m) ==
   /\ byMid' = [byMid EXCEPT ![m] = l]
   /\ route' = RoutesFor(l)
   /\ reg' = reg \cup {l}
   /\ Ctl([op |-> "mid", l |-> l, m |-> m])
-  /\ UNCHANGED <<bySsrc, byRid, closed, cfg>>
+  /\ UNCHANGED <<bySsrc, byRid, closed, full, cfg>>
 
 RegPts(l, P) ==     \* register_payload_list_listener: replaces the list
   /\ route' = [RoutesFor(l) EXCEPT ![l].pts = P]
   /\ reg' = reg \cup {l}
   /\ Ctl([op |-> "pts", l |-> l, pts |-> P])
-  /\ UNCHANGED <<bySsrc, byRid, byMid, closed, cfg>>
+  /\ UNCHANGED <<bySsrc, byRid, byMid, closed, full, cfg>>
 
 RegPt(l, p) ==      \* register_pt_listener: adds one payload type
   /\ route' = [RoutesFor(l) EXCEPT ![l].pts = @ \cup {p}]
   /\ reg' = reg \cup {l}
   /\ Ctl([op |-> "pt", l |-> l, pt |-> p])
-  /\ UNCHANGED <<bySsrc, byRid, byMid, closed, cfg>>
+  /\ UNCHANGED <<bySsrc, byRid, byMid, closed, full, cfg>>
 
 RegProv(l) ==
   /\ route' = [RoutesFor(l) EXCEPT ![l].prov = TRUE]
   /\ reg' = reg \cup {l}
   /\ Ctl([op |-> "prov", l |-> l])
-  /\ UNCHANGED <<bySsrc, byRid, byMid, closed, cfg>>
+  /\ UNCHANGED <<bySsrc, byRid, byMid, closed, full, cfg>>
 
 Close(l) ==         \* the receiver end of listener l is dropped; the registry is not told
   /\ l \notin closed
   /\ closed' = closed \cup {l}
+  /\ full' = full \ {l}          \* a closed channel reports Closed, whatever is still queued
   /\ Ctl([op |-> "close", l |-> l])
   /\ UNCHANGED <<bySsrc, byRid, byMid, route, cfg, reg>>
 
@@ -141,7 +148,28 @@ Clear ==            \* clear_listeners
   /\ route'  = [l \in Ls |-> NoRoute]
   /\ reg' = {}
   /\ Ctl([op |-> "clear"])
-  /\ UNCHANGED <<closed, cfg>>
+  /\ UNCHANGED <<closed, full, cfg>>
+
+Fill(l) ==          \* the receiver of l stops reading and its channel fills up
+  /\ "full" \in Extras
+  /\ l \notin closed /\ l \notin full
+  /\ full' = full \cup {l}
+  /\ Ctl([op |-> "fill", l |-> l])
+  /\ UNCHANGED <<bySsrc, byRid, byMid, route, closed, cfg, reg>>
+
+Drain(l) ==         \* the receiver of l reads everything that is queued
+  /\ "full" \in Extras
+  /\ l \in full /\ l \notin closed
+  /\ full' = full \ {l}
+  /\ Ctl([op |-> "drain", l |-> l])
+  /\ UNCHANGED <<bySsrc, byRid, byMid, route, closed, cfg, reg>>
+
+SetExt(k, on) ==    \* set_rid_extension_id / set_sdes_mid_extension_id (Some(id) / None)
+  /\ "ext" \in Extras
+  /\ cfg' = IF k = "rid" THEN [cfg EXCEPT !.rid = on] ELSE [cfg EXCEPT !.mid = on]
+  /\ cfg' # cfg
+  /\ Ctl([op |-> "ext", k |-> k, on |-> on])
+  /\ UNCHANGED <<bySsrc, byRid, byMid, route, closed, full, reg>>
 
 ---------------------------------------------------------------------------
 (* One inbound RTP packet (clear mode, no bridge)                           *)
@@ -165,7 +193,8 @@ Select(s, pt, rid, mid) ==
      ELSE [l |-> 0, by |-> "none", bind |-> FALSE]
 
 \* What the delivery attempt to x produces: a closed channel receives nothing.
-Out(x) == IF x = 0 \/ x \in closed THEN {} ELSE {x}
+\* A full channel (try_send -> Full) receives nothing either, but its listener stays registered.
+Out(x) == IF x = 0 \/ x \in closed \/ x \in full THEN {} ELSE {x}
 
 \* Outcomes the *statement* allows for this packet in this registry (sets of receivers):
 \*  - RID or MID identifies: that receiver (if both identify different receivers the statement
@@ -214,7 +243,7 @@ Packet(s, pt, rid, mid) ==
   /\ reg'    = e.reg
   /\ last'   = e.last
   /\ Log([op |-> "pkt", s |-> s, pt |-> pt, rid |-> rid, mid |-> mid])
-  /\ UNCHANGED <<closed, cfg>>
+  /\ UNCHANGED <<closed, full, cfg, cfg0>>
 
 Register == \E l \in Ls :
               \/ \E s \in Ssrcs : RegSsrc(l, s)
@@ -227,7 +256,9 @@ Register == \E l \in Ls :
 AnyPacket == \E s \in Ssrcs, pt \in Pts, rid \in Rids \cup {0}, mid \in Mids \cup {0} :
                Packet(s, pt, rid, mid)
 
-Next == Len(hist) < MaxLen /\ (Register \/ (\E l \in Ls : Close(l)) \/ Clear \/ AnyPacket)
+Next == Len(hist) < MaxLen /\ ( \/ Register \/ (\E l \in Ls : Close(l)) \/ Clear \/ AnyPacket
+                               \/ (\E l \in Ls : Fill(l) \/ Drain(l))
+                               \/ (\E k \in {"rid", "mid"}, on \in BOOLEAN : SetExt(k, on)) )
 
 Spec == Init /\ [][Next]_vars
 
@@ -282,5 +313,5 @@ TypeOK ==
   /\ \A r \in Rids : byRid[r] \in Ls \cup {0}
   /\ \A m \in Mids : byMid[m] \in Ls \cup {0}
   /\ \A l \in Ls : (~route[l].on) => route[l] = NoRoute
-  /\ closed \subseteq Ls
+  /\ closed \subseteq Ls /\ full \subseteq Ls
 =============================================================================
